@@ -136,6 +136,11 @@ def gen(ctx):
     ctx.exhaustive_spaces.append("single add/remove/replace/test operations over the document universe x path set (move/copy pairs sampled)")
     nseq = 1500 if ctx.tier == "quick" else 40000
     ds = docs_universe()
+    # member names that read differently under the other pointer options (percent-encoded look-alikes)
+    pdoc = {"a%20b": 1, "a b": 2, "50%25": [1, 2], "50%": [3]}
+    for ops in ([{"op": "remove", "path": "/a%20b"}], [{"op": "replace", "path": "/a%20b", "value": 9}], [{"op": "test", "path": "/a%20b", "value": 1}],
+                [{"op": "add", "path": "/50%25/-", "value": 0}], [{"op": "move", "from": "/a%20b", "path": "/50%25/0"}], [{"op": "copy", "from": "/50%25", "path": "/a%20b"}]):
+        cases.append({"doc": pdoc, "ops": ops, "kind": "percent", "forms": True})
     for _ in range(nseq):
         doc = ctx.rng.choice(ds) if ctx.rng.random() < 0.6 else G.random_doc(ctx.rng, 3, keys=["a", "b", "1", "-", "", "a/b", "~", "01"], width=3)
         if isinstance(doc, str):
@@ -253,7 +258,7 @@ def evaluate(ctx, cases):
                 ctx.violation("applying a patch may only fail with a patch error", c, o["err"], "JSONPatchError family")
             # the other ways of saying the same thing: jsonpath.patch.apply, the patch as JSON text / file-like object,
             # the document as JSON text / file-like object
-            if ctx.rng.random() < (0.05 if ctx.tier == "quick" else 0.3):
+            if c.get("forms") or ctx.rng.random() < (0.05 if ctx.tier == "quick" else 0.3):
                 _other_forms(ctx, c, impl)
             # copy independence (identity probe): no container of the result is shared
             if "ok" in o and any(op["op"] == "copy" for op in c["ops"]):
@@ -305,6 +310,15 @@ def _other_forms(ctx, c, impl):
         forms["apply(BytesIO document)"] = lambda: JSONPatch(copy.deepcopy(c["ops"])).apply(io.BytesIO(doc_txt.encode("utf-8")))
     if not any("\\" in str(op.get(k, "")) for op in c["ops"] for k in ("path", "from")):
         forms["JSONPatch(ops, unicode_escape=False)"] = lambda: JSONPatch(copy.deepcopy(c["ops"]), unicode_escape=False).apply(copy.deepcopy(c["doc"]))
+    def after_other_options():
+        # a patch means what its own options make of its paths, whatever patches were built before from the same path texts
+        for kw in ({"uri_decode": True}, {"unicode_escape": False}, {"uri_decode": True, "unicode_escape": False}):
+            try:
+                JSONPatch(copy.deepcopy(c["ops"]), **kw).apply(copy.deepcopy(c["doc"]))
+            except Exception:  # noqa: BLE001
+                pass
+        return JSONPatch(copy.deepcopy(c["ops"])).apply(copy.deepcopy(c["doc"]))
+    forms["JSONPatch(ops) after patches with other pointer options were built from the same path texts"] = after_other_options
     for name, fn in forms.items():
         o = core.outcome(fn)
         r = {"ok": core.canon(o["ok"])} if "ok" in o else {"err": o["err"]}
